@@ -288,10 +288,34 @@ static void mutate (OrcProgram *p, VChoices *c, VResult *r)
 
 static void over_limit (OrcProgram *p, VChoices *c, VResult *r)
 {
-  uint32_t what = vc_pick (c, 8);
+  uint32_t what = vc_pick (c, 11);
   int count, k;
   char nm[24];
   switch (what) {
+    case 8: case 9: case 10: {          /* long chains of the opcodes with the longest machine-code expansions (code buffer capacity) */
+      static const struct { const char *op1, *op2; int dsz, ssz; } heavy[] = {
+        { "divluw", NULL, 2, 2 }, { "mulhsl", "subusl", 4, 4 }, { "mulhul", "avgul", 4, 4 }, { "minf", "maxf", 4, 4 }, { "mind", "maxd", 8, 8 },
+        { "divluw", "mulhuw", 2, 2 }, { "subusl", "addusl", 4, 4 }, { "divf", "sqrtf", 4, 4 }, { "cmpgtsq", "subssl", 8, 8 }, { "mulll", "avgsl", 4, 4 }
+      };
+      uint32_t h = vc_pick (c, 10);
+      const char *cp = heavy[h].dsz == 2 ? "copyw" : heavy[h].dsz == 4 ? "copyl" : "copyq";
+      count = 20 + (int) vc_pick (c, 42);
+      orc_program_add_destination (p, heavy[h].dsz, "hd");
+      orc_program_add_source (p, heavy[h].ssz, "hs1");
+      orc_program_add_source (p, heavy[h].ssz, "hs2");
+      orc_program_add_temporary (p, heavy[h].dsz, "ht1");
+      orc_program_add_temporary (p, heavy[h].dsz, "ht2");
+      v_desc (r, "over-limit: chain of %d x %s%s%s on temporaries\n", count, heavy[h].op1, heavy[h].op2 ? " / " : "", heavy[h].op2 ? heavy[h].op2 : "");
+      orc_program_append_str (p, cp, "ht1", "hs1", NULL);
+      orc_program_append_str (p, cp, "ht2", "hs2", NULL);
+      for (k = 0; k < count; k++) {
+        const char *op = (heavy[h].op2 && (k & 1)) ? heavy[h].op2 : heavy[h].op1;
+        if (!strcmp (op, "sqrtf")) orc_program_append_str (p, op, "ht1", "ht1", NULL);
+        else orc_program_append_str (p, op, "ht1", "ht1", "ht2");
+      }
+      orc_program_append_str (p, cp, "hd", "ht1", NULL);
+      break;
+    }
     case 0: case 1: {                   /* many instructions */
       const char *ops[] = { "addw", "mullw", "shrsw", "xorw", "convsuswb", "mulhsw", "avgsw" };
       count = 95 + (int) vc_pick (c, 220);
